@@ -1787,7 +1787,7 @@ class Chemical:
             if single_phase:
                 # Reference state does not matter because phase will not change
                 self._H = Enthalpy.functor(Cn, T_ref, H_ref)
-                if phase_ref == 'g':
+                if single_phase == 'g':
                     self._S = EntropyGas.functor(Cn, T_ref, P_ref, S0)
                 else:
                     self._S = Entropy.functor(Cn, T_ref, S0)
